@@ -108,7 +108,7 @@ def run(ctx):
     ctx.floor("R-TAGKIND.sites", 3)
     # scratch buffers that live in the compressor object are emptied before every use (a second payload, a second block)
     structs = sorted({(fx.raw(f)['file'], (fx.raw(f)['self_ty'] or '').split('<')[0]) for f in fx.fn_ids()
-                      if fx.raw(f)['file'].startswith('src/compression/') and fx.raw(f)['self_ty'] and '::tests::' not in f})
+                      if (fx.raw(f)['file'].startswith('src/compression/') or ctx.tier == 'thorough') and fx.raw(f)['self_ty'] and '::tests::' not in f})
     for file, st in structs:
         scratch.run(ctx, fx, file, st)
     ctx.instance("R-SCRATCH.structs", len(structs))
@@ -118,7 +118,7 @@ def run(ctx):
     trunc.writer_threshold(ctx, fx, [f for f in fx.files() if f.startswith('src/compression/')])
     ctx.floor('R-VARINT.threshold.writers', 1)
     # bounded decompression calls: the bound is a constant or a stored size, never a multiple of the compressed length
-    capsrc.run(ctx, fx, [f for f in fx.files() if f.startswith('src/compression/')])
+    capsrc.run(ctx, fx, [f for f in fx.files() if f.startswith('src/compression/') or ctx.tier == 'thorough'])
     ctx.floor('R-CAPSRC.sites', 1)
     ctx.floor("R-SYM.pairs", 8)
     return dict(
